@@ -4,7 +4,19 @@
     [run steps] is the RequestManager model after the critical sections [steps] (any number of
     callers and images, any interleaving of handleRequest / handleResponse critical sections).
     [wf steps]: a [Done img] happens only while a pull for [img] is running, i.e. after at least one
-    [Req _ img] since the previous [Done img] - the only way handleResponse is ever called. *)
+    [Req _ img] since the previous [Done img] - the only way handleResponse is ever called.
+
+    What these theorems do NOT say by themselves: that the Go code's two lock scopes really are
+    atomic.  A step of the model is a whole critical section; if handleResponse gave up the lock
+    between reading the entry, broadcasting and deleting it, the model would not describe the code.
+    That is what the OVERLAPPING runs of the correspondence check test: the harness stalls the
+    broadcast of the real handleResponse at a known point, issues a Pull for the same image
+    meanwhile, and requires the joint observation to be linearizable against this sequential model
+    ([lin_agree] in C20Corr.v: equal to the model's outcome for Done;Req or Req;Done) and to satisfy
+    the property monitor in one of the two orders.  Likewise [C20_private_copies] is a statement
+    about copy *identities* in the model; on the Go side "private" means no shared memory, which is
+    what the aliasing probe of the harness tests (in-place writes, appends into spare capacity, key
+    insertion/deletion on every returned Files map, backing-array comparison, -race in thorough). *)
 From Coq Require Import List NArith Bool Lia.
 From PKO Require Import ReqMgr ReqMgrProofs.
 From PKOCorr Require Import C20Corr.
@@ -75,7 +87,8 @@ Theorem C20_no_response_without_request :
 Proof. exact no_spurious_response. Qed.
 Print Assumptions C20_no_response_without_request.
 
-(** (c) All package copies ever handed out have pairwise distinct identities. *)
+(** (c) All package copies ever handed out have pairwise distinct identities (one DeepCopy per
+    receiver).  Whether DeepCopy really yields disjoint memory is tested by the aliasing probe. *)
 Theorem C20_private_copies :
   forall steps, NoDup (copies (log (run steps))).
 Proof. exact private_copies. Qed.
@@ -104,11 +117,24 @@ Proof. exact fresh_after_broadcast. Qed.
 Print Assumptions C20_fresh_after_broadcast.
 
 (** The run-time monitor used on the implementation's observation accepts the model's
-    observation of every well-formed schedule. *)
+    observation of every well-formed schedule ... *)
 Theorem C20_monitor_sound :
-  forall steps, wf steps = true -> monitor (steps, model_obs steps) = true.
+  forall steps, wf steps = true -> monitor (map Plain steps, model_obs steps) = true.
 Proof. exact monitor_sound. Qed.
 Print Assumptions C20_monitor_sound.
+
+(** ... and, for schedules with overlapping steps, the model's observation of every linearisation
+    (every choice of which of the two overlapping operations took effect first). *)
+Theorem C20_monitor_sound_lin :
+  forall ls, monitor (map forget ls, model_lobs ls) = true.
+Proof. exact monitor_sound_lin. Qed.
+Print Assumptions C20_monitor_sound_lin.
+
+(** The linearizability judgement accepts every sequential behaviour of the model. *)
+Theorem C20_lin_agree_model :
+  forall ls, lin_agree (map forget ls, model_lobs ls) = true.
+Proof. exact lin_agree_model. Qed.
+Print Assumptions C20_lin_agree_model.
 
 (** The hypotheses are satisfiable by a non-trivial schedule: three callers, two images,
     joined pulls, an error result, a request right after a broadcast. *)
